@@ -710,6 +710,28 @@ class HookInterp(Interp):
         return super().binop(ctx, op, a, b)
 
     def builtin_hook(self, ctx: Ctx, name: str, args: List[V], kwargs):
+        if name in ("sorted", "list", "tuple") and len(args) == 1 and not kwargs:
+            a0 = force(ctx, args[0])
+            p0 = None
+            if isinstance(a0, VJsonKeys):
+                p0 = a0.path
+            elif isinstance(a0, VJson):
+                kind = self.node_class(ctx, a0)
+                if kind == "obj":
+                    p0 = a0.path
+                elif kind == "scalar":
+                    raise PyRaise("TypeError", [], "object is not iterable")
+            if p0 is not None:
+                return VOpaque(f"<{name} of the keys of {p0}>")  # string keys: sorting never raises; the value is only looked at by loggers
+            if isinstance(a0, VJson):
+                if kind == "str":
+                    return VOpaque(f"<{name} of the characters of {a0.path}>")
+                # an array: sorting may raise (unorderable elements).  Only when no valid input has an array here (so the path is
+                # unreachable under every obligation's precondition) is the outcome immaterial.
+                tags = self.site.typer.tags_at(a0.path) if self.site.typer is not None else None
+                if name != "sorted" or (tags is not None and T_ARR not in tags):
+                    return VOpaque(f"<{name} of the elements of {a0.path}>")
+            raise Unsupported(f"{name}() of a JSON array")
         if name in ("set", "frozenset") and not kwargs:
             if not args:
                 return VKeySet(frozenset())
@@ -1018,6 +1040,8 @@ class HookInterp(Interp):
                 return VJson(self.site.child(f.path, key))
             return args[1] if len(args) > 1 else VNone()
 
+        if isinstance(f, VOpaque) and f.name.startswith("<logger>.") and f.name.split(".")[-1] in ("debug", "info", "warning", "error", "exception", "critical", "log"):
+            return VNone()  # logging is not an observable of structuring (its arguments have been evaluated)
         if isinstance(f, VJsonMethod) and f.name == "keys":
             node = VJson(f.path)
             kind = self.node_class(ctx, node)
